@@ -45,6 +45,7 @@ def decStmt : Sx → Option Stmt
   | .list [.atom "insert", t, q] => do pure (.insert (← decStr t) (← decFp q))
   | .list [.atom "update", t, q] => do pure (.update (← decStr t) (← decFp q))
   | .list [.atom "delete", t, q] => do pure (.delete (← decStr t) (← decFp q))
+  | .list (.atom "truncate" :: ts) => (ts.mapM decStr).map Stmt.truncate
   | _ => none
 
 def encErr : Err → Sx
